@@ -14,6 +14,8 @@ typedef struct {
   int      last_had_opt;
   int      max_servers;
   int64_t  t_first, t_last;
+  int      gone;            /* the library's query with this id was seen to be gone (or to be another question) */
+  int      last_terminal;   /* the latest transmission was given a reply that ends a query (answer / no data / name error) */
 } net_q_t;
 
 #define NET_MAXQ 4096
@@ -21,11 +23,53 @@ static net_q_t net_q[NET_MAXQ];
 static int     net_nq;
 static int     net_unique_names = 1; /* profile promises each wire query has a unique (name,type,id) */
 
+/* Identity of a wire query is (name, type, id).  The same name may legitimately be asked again later in a
+ * history (lookup order "bb", a second request for it), and the fresh query may draw the id of the earlier one
+ * (1 in 65536; seen at seed 1, search profile, idx 2715143).  An entry therefore stops matching once the
+ * library's query of that id was seen to be gone; looked at on every transmission, before it is attributed. */
+static void net_mark_gone(void)
+{
+  int i;
+  if (app_channel == NULL || app_channel->queries_by_qid == NULL) {
+    return;
+  }
+  for (i = 0; i < net_nq; i++) {
+    const ares_query_t *lq;
+    if (net_q[i].gone) {
+      continue;
+    }
+    lq = ares_htable_szvp_get_direct(app_channel->queries_by_qid, net_q[i].qid);
+    if (lq == NULL) {
+      net_q[i].gone = 1;
+    } else {
+      const char         *nm = NULL;
+      ares_dns_rec_type_t qt = 0;
+      if (ares_dns_record_query_get(lq->query, 0, &nm, &qt, NULL) == ARES_SUCCESS && (uint16_t)qt != net_q[i].qtype) {
+        net_q[i].gone = 1;
+      }
+    }
+  }
+}
+
 static net_q_t *net_find(const sim_tx_t *tx, int create)
 {
   int i;
   for (i = net_nq - 1; i >= 0; i--) {
     if (net_q[i].qid == tx->qid && net_q[i].qtype == tx->qtype && strcmp(net_q[i].qname, tx->qname) == 0) {
+      if (net_q[i].gone) {
+        break; /* newest entry of this identity belongs to a query that has ended: this is a new one */
+      }
+      /* the earlier query ended and the very next transmission is its namesake with the same id: the library's
+       * query is on its first attempt, and the earlier one had been given a final reply and is owed no resend */
+      if (create && app_channel != NULL && net_q[i].last_terminal && net_q[i].n_edns_downgrade_justified == 0 &&
+          net_q[i].n_tc_justified == 0 && net_q[i].n_badcookie_justified == 0) {
+        const ares_query_t *lq = ares_htable_szvp_get_direct(app_channel->queries_by_qid, tx->qid);
+        if (lq != NULL && lq->try_count == 0 && lq->cookie_try_count == 0 && tx->t > net_q[i].t_last) {
+          sim_note("net_same_identity_new_query");
+          net_q[i].gone = 1;
+          break;
+        }
+      }
       return &net_q[i];
     }
   }
@@ -51,6 +95,7 @@ static void mon_net_tx(sim_tx_t *tx, const sdns_query_t *q, const uint8_t *msg, 
   if (!mon_enable_net || !tx->wellformed) {
     return;
   }
+  net_mark_gone();
   nq = net_find(tx, 1);
   if (nq == NULL) {
     return;
@@ -104,6 +149,8 @@ static void mon_net_tx(sim_tx_t *tx, const sdns_query_t *q, const uint8_t *msg, 
                    nq->n_tc_justified, nq->n_badcookie_justified);
     }
   }
+  nq->last_terminal = (tx->action == SA_ANSWER || tx->action == SA_NXDOMAIN || tx->action == SA_NODATA ||
+                       tx->action == SA_NODATA_NOSOA || tx->action == SA_NXDOMAIN_NOSOA);
   /* what did the server do with this transmission: justification for one extra resend */
   if (tx->action == SA_FORMERR_NOOPT || tx->action == SA_FORMERR_OPT) {
     if (tx->has_opt) {
